@@ -650,6 +650,8 @@ def check_table_get(ctx):
 
 
 def check(ctx):
+    from . import c02 as _c02d
+    _c02d.check_env(ctx)           # what was acknowledged reached the file completely (a short write is continued, not repeated)
     from . import tablefmt as _tf4
     _tf4.check_iterator_statuses(ctx)   # a failed block read is an error, not 'key absent here, look in older files'
     from . import tablefmt as _tf3
